@@ -3,12 +3,18 @@ import DFV.Lemmas.C03a
 namespace DFV.C03
 open DFV
 
+/-- the mask handed to the constructor, read at cell `i` (`True` when none is passed) -/
+def validAt (valid : Option (NDA Bool)) (i : List Nat) : Bool :=
+  match valid with
+  | some v => v.get i
+  | none => true
+
 /-- well-formed field state: array shape `n ++ [nvdim]`, mask shape `n`, at least one component -/
 def CFwf (f : CF) : Prop :=
   f.data.shape = f.mesh.n ++ [f.nvdim] ∧ f.valid.shape = f.mesh.n ∧ 0 < f.nvdim
 
-theorem getLastD_append_single {α} (l : List α) (x d : α) : (l ++ [x]).getLastD d = x := by
-  simp [List.getLastD_eq_getLast?]
+theorem getLastD_append_single (l : List Nat) (x : Nat) : lastAx (l ++ [x]) = x := by
+  simp [lastAx, List.getLastD_eq_getLast?]
 
 theorem dropLast_append_single {α} (l : List α) (x : α) : (l ++ [x]).dropLast = l := by
   simp
@@ -76,31 +82,30 @@ theorem npFull_ok {α} (T : List Nat) (v a : NDA α) (h : npFull T v = .ok a) :
     exact ⟨hb, rfl, fun _ => rfl⟩
   · cases h
 
-/-- `asArray` on an array whose rank exceeds the mesh's (every result of an array-level
-NumPy function on `self.array`): the value is broadcast to `n ++ [nvdim]` -/
+/-- `asArray` on an array-like outside the mesh-shaped-scalar shortcut: the value is
+broadcast to `n ++ [nvdim]` -/
 theorem asArray_arr_ok (mesh : Mesh) (nv : Nat) (v a : NDA GQ) (own : Bool)
-    (hr : mesh.n.length < v.shape.length)
+    (h1 : ¬ (nv = 1 ∧ v.shape = mesh.n))
     (h : asArray mesh nv (.arr v) = .ok (a, own)) :
-    own = false ∧ a.shape = mesh.n ++ [nv] ∧ v.shape.getLastD 0 = nv ∧
+    own = false ∧ a.shape = mesh.n ++ [nv] ∧ lastAx v.shape = nv ∧ v.shape ≠ [] ∧
       bshape v.shape (mesh.n ++ [nv]) = some (mesh.n ++ [nv]) ∧
       ∀ idx, a.get idx = v.get (bproj v.shape idx) := by
   unfold asArray at h
-  have h1 : ¬ (nv = 1 ∧ v.shape = mesh.n) := by
-    rintro ⟨_, hs⟩; rw [hs] at hr; omega
-  have h2 : ¬ v.shape = [] := by
-    intro hs; rw [hs] at hr; simp at hr
-  simp only [h1, h2, if_false] at h
+  simp only [h1, if_false] at h
   split at h
   · cases h
-  · rename_i hl
-    cases hf : npFull (mesh.n ++ [nv]) v with
-    | error e => simp [hf] at h
-    | ok a' =>
-      simp [hf] at h
-      obtain ⟨ha, ho⟩ := h
-      subst ha
-      obtain ⟨hb, hs, hg⟩ := npFull_ok _ _ _ hf
-      exact ⟨ho, hs, by simpa using hl, hb, hg⟩
+  · rename_i h2
+    split at h
+    · cases h
+    · rename_i hl
+      cases hf : npFull (mesh.n ++ [nv]) v with
+      | error e => simp [hf] at h
+      | ok a' =>
+        simp [hf] at h
+        obtain ⟨ha, ho⟩ := h
+        subst ha
+        obtain ⟨hb, hs, hg⟩ := npFull_ok _ _ _ hf
+        exact ⟨ho, hs, by simpa using hl, h2, hb, hg⟩
 
 theorem validSet_same (mesh : Mesh) (v vl : NDA Bool) (hs : v.shape = mesh.n)
     (h : validSet mesh (some v) = .ok vl) : vl = v := by
@@ -147,31 +152,26 @@ theorem mkField_ok (mesh : Mesh) (nv : Nat) (val : Value) (kind : Kind) (vd : Op
             subst h
             refine ⟨rfl, rfl, by omega, rfl, arr, own, vl, rfl, rfl, rfl, rfl, rfl, hm, rfl⟩
 
-/-- the constructor applied to the result `res` of an array-level function whose rank
-exceeds the mesh's: well-formed field on `mesh`, data = `res` read through broadcasting,
-validity = the mask handed over (or all `True`) -/
-theorem mkField_arr (mesh : Mesh) (nv : Nat) (res : NDA GQ) (kind : Kind) (vd : Option (List String))
+/-- the constructor applied to an array-like `res` outside the mesh-shaped-scalar
+shortcut: well-formed field on `mesh`, data = `res` read through broadcasting, validity =
+the mask handed over (or all `True`) -/
+theorem mkField_arr' (mesh : Mesh) (nv : Nat) (res : NDA GQ) (kind : Kind) (vd : Option (List String))
     (valid : Option (NDA Bool)) (vm : Option VMap) (unit : Option String) (g : CF)
-    (hr : mesh.n.length < res.shape.length)
+    (hne : ¬ (nv = 1 ∧ res.shape = mesh.n))
     (hvs : ∀ v, valid = some v → v.shape = mesh.n)
     (h : mkField mesh nv (.arr res) kind vd valid vm unit = .ok g) :
     g.mesh = mesh ∧ g.nvdim = nv ∧ CFwf g ∧ g.unit = unit ∧ g.kind = kind.ctor ∧
-    res.shape.getLastD 0 = nv ∧ res.shape.length = mesh.n.length + 1 ∧
+    lastAx res.shape = nv ∧ res.shape ≠ [] ∧
     bshape res.shape (mesh.n ++ [nv]) = some (mesh.n ++ [nv]) ∧
     (∀ idx, inRange (mesh.n ++ [nv]) idx = true → g.data.get idx = res.get (bproj res.shape idx)) ∧
-    (∀ i, inRange mesh.n i = true →
-      g.valid.get i = (match valid with | some v => v.get i | none => true)) := by
+    (∀ i, inRange mesh.n i = true → g.valid.get i = validAt valid i) := by
   obtain ⟨hm, hn, hpos, hu, arr, own, vl, ha, hv, hd, hvl, _, _, hk⟩ := mkField_ok _ _ _ _ _ _ _ _ _ h
-  obtain ⟨ho, hs, hl, hb, hg⟩ := asArray_arr_ok _ _ _ _ _ hr ha
-  have hlen : res.shape.length = mesh.n.length + 1 := by
-    have := bshape_length _ _ _ hb
-    simp at this
-    omega
+  obtain ⟨ho, hs, hl, hnil, hb, hg⟩ := asArray_arr_ok _ _ _ _ _ hne ha
   have hvshape : vl.shape = mesh.n := by
     cases valid with
     | none => rw [validSet_none _ _ hv]; rfl
     | some v => rw [validSet_same _ _ _ (hvs v rfl) hv]; exact hvs v rfl
-  refine ⟨hm, hn, ?_, hu, ?_, hl, hlen, hb, ?_, ?_⟩
+  refine ⟨hm, hn, ?_, hu, ?_, hl, hnil, hb, ?_, ?_⟩
   · refine ⟨?_, ?_, ?_⟩
     · rw [hd, hm, hn]; exact hs
     · rw [hvl, hm]; exact hvshape
@@ -183,6 +183,27 @@ theorem mkField_arr (mesh : Mesh) (nv : Nat) (res : NDA GQ) (kind : Kind) (vd : 
     rw [hvl, force_get _ _ _ (by rw [hvshape]; exact hi)]
     cases valid with
     | none => rw [validSet_none _ _ hv]; rfl
-    | some v => rw [validSet_same _ _ _ (hvs v rfl) hv]
+    | some v => rw [validSet_same _ _ _ (hvs v rfl) hv]; rfl
+
+/-- the same for the result of an array-level NumPy function on `self.array` (rank above
+the mesh's): additionally the rank is exactly one more than the mesh's -/
+theorem mkField_arr (mesh : Mesh) (nv : Nat) (res : NDA GQ) (kind : Kind) (vd : Option (List String))
+    (valid : Option (NDA Bool)) (vm : Option VMap) (unit : Option String) (g : CF)
+    (hr : mesh.n.length < res.shape.length)
+    (hvs : ∀ v, valid = some v → v.shape = mesh.n)
+    (h : mkField mesh nv (.arr res) kind vd valid vm unit = .ok g) :
+    g.mesh = mesh ∧ g.nvdim = nv ∧ CFwf g ∧ g.unit = unit ∧ g.kind = kind.ctor ∧
+    lastAx res.shape = nv ∧ res.shape.length = mesh.n.length + 1 ∧
+    bshape res.shape (mesh.n ++ [nv]) = some (mesh.n ++ [nv]) ∧
+    (∀ idx, inRange (mesh.n ++ [nv]) idx = true → g.data.get idx = res.get (bproj res.shape idx)) ∧
+    (∀ i, inRange mesh.n i = true → g.valid.get i = validAt valid i) := by
+  have hne : ¬ (nv = 1 ∧ res.shape = mesh.n) := by
+    rintro ⟨_, hs⟩; rw [hs] at hr; omega
+  obtain ⟨hm, hn, hwf, hu, hk, hl, _, hb, hdata, hvalid⟩ := mkField_arr' _ _ _ _ _ _ _ _ _ hne hvs h
+  have hlen : res.shape.length = mesh.n.length + 1 := by
+    have := bshape_length _ _ _ hb
+    simp at this
+    omega
+  exact ⟨hm, hn, hwf, hu, hk, hl, hlen, hb, hdata, hvalid⟩
 
 end DFV.C03
